@@ -170,7 +170,9 @@ def check_tree(e, g, rec, origin, r):
             rec.add("skipped_undefined_value")
             return
     except Exception:  # pylint: disable=broad-except
-        pass
+        # SymPy itself refuses to evaluate the tree with the quantities replaced by their values (zoo in Min/Max, ...)
+        rec.add("skipped_undefined_value")
+        return
     refdim.NONDIRECT_ANY_USED = False
     try:
         rd, rerr = refdim.refdim(e), None
@@ -187,8 +189,8 @@ def check_tree(e, g, rec, origin, r):
     except TypeError as x:
         import traceback
         last = traceback.extract_tb(x.__traceback__)[-1].filename
-        composite = any(isinstance(n, sympy.Pow) and n.exp.free_symbols and not isinstance(n.exp, sympy.Symbol)
-                        for n in sympy.preorder_traversal(e))
+        # (nested powers multiply exponents, so any symbolic exponent can end up composite inside the Dimension)
+        composite = any(isinstance(n, sympy.Pow) and n.exp.free_symbols for n in sympy.preorder_traversal(e))
         if "sympy/physics/units" in last and composite:
             rec.inconc("SymPy cannot expand a dimension raised to a composite symbolic exponent")
             return
